@@ -1105,9 +1105,13 @@ func (g *c07Gen) createOps(id, typ, parent string) []sOp {
 		ops = append(ops, sOp{Kind: "np", Node: id, Points: pts})
 	}
 	t := g.tick()
-	ep := []sPoint{{Type: "tombstone", Time: t, Origin: "u1"}, {Type: "nodeType", Time: t, Text: typ, Origin: "u1"}}
+	who := "u1"
+	if g.typ[parent] == c07TypeNode && g.r.Intn(3) == 0 {
+		who = parent // a client that creates a child of its own node (as the Shelly and network-manager clients do) stamps it with its own id
+	}
+	ep := []sPoint{{Type: "tombstone", Time: t, Origin: who}, {Type: "nodeType", Time: t, Text: typ, Origin: who}}
 	if g.r.Intn(4) == 0 {
-		ep = append(ep, sPoint{Type: "role", Time: t, Text: "admin", Origin: "u1"})
+		ep = append(ep, sPoint{Type: "role", Time: t, Text: "admin", Origin: who})
 	}
 	ops = append(ops, sOp{Kind: "ep", Node: id, Parent: parent, Points: ep})
 	g.nodes = append(g.nodes, id)
